@@ -570,6 +570,10 @@ class State:
         s.arrlog = list(self.arrlog) if getattr(self, "arrlog", None) is not None else None
         s.sandbox_fresh = self.sandbox_fresh
         s.infeasible = self.infeasible
+        for extra in ("mask_counts", "np_special_sums", "np_reductions"):
+            if hasattr(self, extra):
+                v = getattr(self, extra)
+                setattr(s, extra, dict(v) if isinstance(v, dict) else (list(v) if isinstance(v, list) else v))
         return s
 
     # ---- locals
